@@ -51,7 +51,7 @@ def run(ctx):
     ])
     ctx.require_coverage(r, ACTIONS, "MC_TxAssembly")
     cases = ctx.read_emitted(g, "cases.ndjson")
-    want = ctx.pick(38187, 0)
+    want = ctx.pick(53187, 0)
     if (want and len(cases) != want) or len(cases) < ctx.pick(30000, 300000):
         ctx.broken("expected %s generated cases, got %d" % (want or ">= 300000", len(cases)))
     import random
@@ -62,7 +62,8 @@ def run(ctx):
     ctx.absorb(go, require_evals=len(cases))
     counters = (go.reports.get("assemble") or {}).get("counters") or {}
     for k in ("sweep/built", "redemption/built", "movingFunds/built", "movedFundsSweep/built", "sweepProposal/built",
-              "redemptionProposal/built", "sweepProposal/error:noEvent", "signed_and_script_verified"):
+              "redemptionProposal/built", "sweepProposal/error:noEvent", "redemption/share-above-TxMaxFee",
+              "signed_and_script_verified"):
         if counters.get(k, 0) < 20:
             ctx.broken("harness compared only %d cases of class %s" % (counters.get(k, 0), k))
     return ctx.finish(
@@ -72,7 +73,8 @@ def run(ctx):
              "(amount, treasury fee, four redeemer script kinds, duplicates) / 0..3 target wallets (permutations, duplicates) / moved funds "
              "UTXO; deposit sweep proposals of 1..3 keys over 3-4 outputs of two funding transactions (revealed in block 1/2, for this or "
              "another wallet, without request, wrong reveal block, unconfirmed / unknown funding transaction) and redemption proposals of 1..3 "
-             "scripts (pending / not pending, same scripts pending for another wallet), resolved by the real Validate*Proposal; "
+             "scripts (pending / not pending, same scripts pending for another wallet), resolved by the real Validate*Proposal; per-request "
+             "TxMaxFee far above / equal to the even part (below the remainder share) / below the first share and differing between requests; "
              "fees incl. not divisible by k and larger than the inputs; change shapes default/first/last. Non-trivial = a transaction "
              "is built and compared (errors are compared too).",
         assumptions=["btcd wire/txscript are trusted", "the Bridge's on-chain proposal validation is replaced by one that accepts (and records) everything", "UTXO values given to the assemblers are the true values of the referenced outputs",
